@@ -155,9 +155,14 @@ def finish(prop, tier, results, t0, level='proof', checker_cmd=None, functions=N
     missing = []
     seen_oids = set(r.get('oid') for r in results)
     only_filter = os.environ.get('PVC_ONLY_FILTER')
+    units_seen = set((r.get('oid') or '').split('#')[0] for r in results)
     if not only_filter:
         for key, info in baseline.items():
             if info.get('tier', 'quick') == 'thorough' and tier == 'quick':
+                continue
+            if tier != info.get('tier', 'quick') and key.split('#')[0] not in units_seen:
+                # the baseline was recorded in the other tier and this tier's grid does not contain that unit (function /
+                # block / design at that configuration) at all: nothing was generated for it, nothing is missing
                 continue
             if key not in seen_oids:
                 missing.append(key)
